@@ -385,10 +385,10 @@ __CPROVER_ensures(g_exc == 0 ==> ($ret.m_blocks_count == H.blocks_len && ($ret.m
 """
 UNITS.append(Unit('rdr.ctor', ('@_ZN4CDNS10CdnsReaderC1ERSi', None), contract=RCT_C, prelude='hdr.h', extern_records=EXT,
                   opaque={'std::basic_istream': 'struct istream_s', 'std::istream': 'struct istream_s'},
-                  stubs=['cstring__[a-z]+', 'seq_[A-Za-z0-9_]+__\\w+'], replace=['rdr.read_file_header'],
+                  stubs=['cstring__[a-z]+', 'seq_[A-Za-z0-9_]+__\\w+', 'istream_s__peek'], replace=['rdr.read_file_header'],
                   gen_stubs=[(r'^CdnsDecoder__ctor__\w+$', '  struct CdnsDecoder d; return d;'), (r'^FilePreamble__ctor__\w+$', '  struct FilePreamble f; return f;')],
                   auto_inline=[r'(?!CdnsDecoder|FilePreamble)[A-Za-z]+__ctor__\w+', r'[A-Za-z]+__default', r'[A-Za-z]+__op_assign\w*', r'[A-Za-z]+__reset'],
-                  extra_c='struct seq_u8 g_OpCodesDefault; struct seq_u16 g_RrTypesDefault;\nstruct istream_s { char opaque; };\n',
+                  extra_c='struct seq_u8 g_OpCodesDefault; struct seq_u16 g_RrTypesDefault;\nstruct istream_s { char opaque; };\nint nondet_int(void);\nint istream_s__peek(struct istream_s *s) { int c = nondet_int(); __CPROVER_assume(c >= -1 && c <= 255); return c; }   /* std::istream::peek(): next byte or EOF, also EOF on a stream that cannot be read */\n',
                   setup='  static struct istream_s in;\n  H.step = 0; H.seq_bad = 0; H.raised = 0;\n', args=['&in'], props=['C05', 'C08'], timeout=300,
                   post='  if (g_exc != 0) { CANARY("decoder exception reachable"); }',
                   note='a reader exists only after its file header has been read completely: the constructor calls read_file_header unconditionally and lets every '
